@@ -48,6 +48,9 @@ def run():
     thorough = vf.TIER == "thorough"
     sfx = "_wide" if thorough else ""
     chk = vf.Check(PROP)
+    # several small JVMs run side by side: keep each one's helper threads few
+    os.environ.setdefault("JAVA_TOOL_OPTIONS", "-XX:ParallelGCThreads=2 -XX:CICompilerCount=2")
+    replay = os.environ.get("VERIF_REPLAY")
     chk.assumptions += [
         "minification and Markdown rendering are an oracle: the real javascript.Minify / MinifyCSS / mdToHTML applied to the whole raw file (their correctness is C19/C33/C34's subject)",
         "requests are parsed by net/http.ReadRequest from the literal request line and served by Router.ServeHTTP into an httptest recorder (no TCP); a panic is observed by a wrapper around AssetsHandler that re-panics",
@@ -84,6 +87,11 @@ def run():
             raise vf.NoVerdict("generator output incomplete: %d fixture records, %d cases, %d states" % (len(fixture), len(cases), rg.distinct))
         rng = random.Random(vf.SEED)
         rng.shuffle(cases)          # execution order must not matter (cache flushed per case); the seed varies it
+        if replay:                  # --replay <file>: only the recorded case (it must still be a case of the spec)
+            want = json.load(open(replay))["replay"]["in"]
+            cases = [c for c in cases if c == want]
+            if not cases:
+                raise vf.NoVerdict("the replay file's input is not a case of the current domain (tier %s)" % vf.TIER)
         cf = vf.write_ndjson(os.path.join(sd, "cases.ndjson"), fixture + cases)
 
         # ---- 2. execute on the real handler (thorough: also behind a real net/http server on loopback)
@@ -112,7 +120,7 @@ def run():
             hist = {}
             for r in recs:
                 hist[r["out"]["status"]] = hist.get(r["out"]["status"], 0) + 1
-            if not hist.get(200) or not hist.get(206) or not any(400 <= s < 500 for s in hist):
+            if not replay and (not hist.get(200) or not hist.get(206) or not any(400 <= s < 500 for s in hist)):
                 raise vf.NoVerdict("degenerate run: status histogram %s" % hist)
             chk.cov["status_histogram_" + mode] = {str(k): v for k, v in sorted(hist.items())}
 
@@ -137,6 +145,9 @@ def run():
                         chk.sample({"kind": "accepted pair", "case": _describe(r)}, limit=8)
                         break
 
+        if replay:
+            chk.cov["rule"] = "replay of one recorded case"
+            return chk.finish()
         # ---- 4. binding self-test: perturbed accepted pairs must all be rejected
         good = [r for k, r in enumerate(recs) if (k + 1) not in badidx]
         def pick(pred):
